@@ -305,18 +305,29 @@ Run(p) == RunSkip(p, Ends(p), {})
 (* right-hand side contains nothing but built-in arithmetic besides pure construction.  The outcomes of    *)
 (* dropping every subset of the dead bindings are emitted with the program so that the replay can tell      *)
 (* "explained by dropping bindings {..}" from an unexplained disagreement.                                 *)
-UsedIn(p, from, to, idx) == \E j \in from..(to - 1) : p[j].g = "var" /\ p[j].a = idx
-\* roots of the subtrees whose value is never used
-DeadLets(p, E) ==
+\* is variable idx used in from..to-1 outside of the subtrees rooted in D ?
+UsedOutside(p, E, from, to, idx, D) ==
+  \E j \in from..(to - 1) : p[j].g = "var" /\ p[j].a = idx /\ ~\E r \in D : j >= r /\ j < E[r]
+\* roots of the subtrees whose value is never used, given that the subtrees rooted in D are dropped
+DeadStep(p, E, D) ==
   {i + 1 : i \in {x \in 1..Len(p) : \/ p[x].g = "letu"
-                                     \/ (p[x].g = "let" /\ ~UsedIn(p, E[x + 1], E[x], p[x].a))}}
+                                     \/ (p[x].g = "let" /\ ~UsedOutside(p, E, E[x + 1], E[x], p[x].a, D))}}
   \cup {E[i + 2] : i \in {x \in 1..Len(p) : p[x].g = "prx" /\ p[x + 1].g = "mkr"}}
   \cup {i + 2 : i \in {x \in 1..Len(p) : p[x].g = "pry" /\ p[x + 1].g = "mkr"}}
-  \cup {i + 2 : i \in {x \in 1..Len(p) : p[x].g = "mtup" /\ p[x + 1].g = "mkp" /\ ~UsedIn(p, E[x + 1], E[x], p[x].a)}}
-  \cup {E[i + 2] : i \in {x \in 1..Len(p) : p[x].g = "mtup" /\ p[x + 1].g = "mkp" /\ ~UsedIn(p, E[x + 1], E[x], p[x].a + 1)}}
+  \cup {i + 2 : i \in {x \in 1..Len(p) : p[x].g = "mtup" /\ p[x + 1].g = "mkp" /\ ~UsedOutside(p, E, E[x + 1], E[x], p[x].a, D)}}
+  \cup {E[i + 2] : i \in {x \in 1..Len(p) : p[x].g = "mtup" /\ p[x + 1].g = "mkp" /\ ~UsedOutside(p, E, E[x + 1], E[x], p[x].a + 1, D)}}
+\* transitively dead (a variable used only by dead bindings is dead): three rounds suffice for the generated sizes
+DeadLets(p, E) == DeadStep(p, E, DeadStep(p, E, DeadStep(p, E, {})))
+\* a set of dead roots may be dropped together only if what it drops is dead once it is dropped
+Closed(p, E, m) == m \subseteq DeadStep(p, E, m)
 Impure == {"eff", "effm", "err", "idx", "mpart", "app1", "app2", "papp", "add", "sub", "mul", "div", "recf"}
-RhsKinds(p, E, r) == {p[j].g : j \in {x \in r..(E[r] - 1) : p[x].g \in Impure}}
-Masks(D) == IF Cardinality(D) <= 3 THEN (SUBSET D) \ {{}} ELSE {D} \cup {{x} : x \in D}
+\* calls whose callee is a plain variable are told apart (the real optimiser treats them differently)
+KindAt(p, j) ==
+  IF p[j].g \in {"app1", "app2", "papp"} /\ p[j + 1].g = "var"
+    THEN (IF p[j].g = "app1" THEN "app1v" ELSE IF p[j].g = "app2" THEN "app2v" ELSE "pappv")
+    ELSE p[j].g
+RhsKinds(p, E, r) == {KindAt(p, j) : j \in {x \in r..(E[r] - 1) : p[x].g \in Impure}}
+Masks0(D) == IF Cardinality(D) <= 3 THEN (SUBSET D) \ {{}} ELSE {D} \cup {{x} : x \in D}
 
 \* first-order rendering of a value (closures and partial applications are opaque)
 RECURSIVE Show(_)
@@ -335,14 +346,15 @@ Res(r) == [k |-> r.k, v |-> IF r.k = "val" THEN Show(r.v) ELSE <<r.v>>, log |-> 
 Outcome(p, r) ==
   LET E == Ends(p)
       D == DeadLets(p, E)
-      alts == {[d |-> UNION {RhsKinds(p, E, i) : i \in m}, o |-> Res(RunSkip(p, E, m))] : m \in Masks(D)}
+      MS == {m \in Masks0(D) : Closed(p, E, m)}
+      alts == {[d |-> UNION {RhsKinds(p, E, i) : i \in m}, o |-> Res(RunSkip(p, E, m))] : m \in MS}
   IN [p |-> [j \in DOMAIN p |-> <<p[j].g, p[j].a, p[j].t>>],
       ty |-> rootTy,
       k |-> r.k,
       v |-> IF r.k = "val" THEN Show(r.v) ELSE <<r.v>>,
       log |-> [j \in DOMAIN r.log |-> <<r.log[j].k, r.log[j].d>>],
       alts |-> {a \in alts : a.o.k # "unrep"},
-      nalts |-> Cardinality(Masks(D))]
+      nalts |-> Cardinality(MS)]
 
 Done == pending = <<>>
 
